@@ -169,6 +169,21 @@ void write_value(WriteStream &w, Held &h)
   case A15_VEC_TAG: w << h.vtag; break;
   case A15_VEC_F64: w << h.vf64; break;
   case A15_VEC_POD: w << h.vpod; break;
+  case A15_VEC_CSTRING: {
+    std::vector<const char *> v;
+    for (auto &s : h.vs)
+      v.push_back(s.c_str());
+    w << v;
+    break;
+  }
+  case A15_VEC_VEC_CSTRING: {
+    // two inner vectors: the first element alone, then the rest
+    std::vector<std::vector<const char *>> vv(2);
+    for (size_t i = 0; i < h.vs.size(); i++)
+      vv[i ? 1 : 0].push_back(h.vs[i].c_str());
+    w << vv;
+    break;
+  }
   case A15_ARRAYVIEW: {
     ArrayView<int> av(h.vi);
     const AbstractArray<int> &aa = av;
@@ -221,6 +236,24 @@ bool read_and_compare(ReadStream &r, const Held &h)
   case A15_VEC_TAG: return read_vec_eq(r, h.vtag, h.u64 & 1);
   case A15_VEC_F64: return read_vec_eq(r, h.vf64, h.u64 & 1);
   case A15_VEC_POD: return read_vec_eq(r, h.vpod, h.u64 & 1);
+  case A15_VEC_CSTRING: {
+    std::vector<std::string> x, e;
+    if (h.u64 & 1)
+      x.assign(3, "old");
+    r >> x;
+    for (auto &s : h.vs)
+      e.push_back(std::string(s.c_str()));  // a C string ends at its first NUL
+    return x == e;
+  }
+  case A15_VEC_VEC_CSTRING: {
+    std::vector<std::vector<std::string>> x, e(2);
+    if (h.u64 & 1)
+      x.assign(1, std::vector<std::string>(2, "old"));
+    r >> x;
+    for (size_t i = 0; i < h.vs.size(); i++)
+      e[i ? 1 : 0].push_back(std::string(h.vs[i].c_str()));
+    return x == e;
+  }
   default: { std::vector<int> x; if (h.u64 & 1) x.assign(5, -1); r >> x; return x == h.vi; }  // vectors and all array wrappers share the framing
   }
 }
